@@ -299,7 +299,7 @@ async fn history(rep: &mut Report, rng: &mut Rng, plan: &Plan) {
     kinds.sort();
     kinds.dedup();
     for kname in kinds {
-      rep.violation(format!("operation_on_closed_socket_hangs|{}", kname), format!("a {} call was still in flight 2.5 s after close()/term() returned ({})", kname, cfg), json!({"config": cfg, "hanging": hanging, "live_actors_now": verif::live_actors(&ctx)}));
+      rep.violation(format!("operation_on_closed_socket_hangs|{}|{:?}", kname, plan.inject), format!("a {} call was still in flight 2.5 s after close()/term() returned ({})", kname, cfg), json!({"config": cfg, "hanging": hanging, "live_actors_now": verif::live_actors(&ctx)}));
     }
     let still = running.lock().len();
     rep.count("workers_still_looping_with_successful_ops_after_term", (still - hanging.len().min(still)) as u64);
